@@ -17,7 +17,36 @@ use std::panic::{catch_unwind, AssertUnwindSafe};
 
 // ------------------------------------------------------------------------------------------------ specs
 #[derive(Clone, Debug)]
-pub struct IssSpec { pub amount: Option<u64>, pub keys: Option<u64>, pub reissue: bool }
+/// issuance of an input: amount / inflation keys absent (None), explicit (`*_vbf` None) or CONFIDENTIAL (`*_vbf` = the blinding factor
+/// of the commitment amount·H_id + vbf·G)
+pub struct IssSpec { pub amount: Option<u64>, pub keys: Option<u64>, pub reissue: bool, pub amount_vbf: Option<ValueBlindingFactor>, pub keys_vbf: Option<ValueBlindingFactor> }
+impl IssSpec { pub fn explicit(amount: Option<u64>, keys: Option<u64>, reissue: bool) -> IssSpec { IssSpec { amount, keys, reissue, amount_vbf: None, keys_vbf: None } } }
+/// The asset and token ids of the issuance on input `i`, derived HERE from the formulas of the protocol and NOT through
+/// `TxIn::issuance_ids()`: entropy = H(H(outpoint) || H(contract)) for a new issuance, the entropy field for a reissuance;
+/// asset = H(entropy || 0); token = H(entropy || 1) if the issued AMOUNT is explicit (or absent), H(entropy || 2) if it is confidential.
+pub fn own_issuance_ids(i: usize, x: &IssSpec) -> (AssetId, AssetId) {
+    use elements::{AssetEntropy, ContractHash};
+    let field = [0x20 + i as u8; 32];
+    let entropy = if x.reissue { AssetEntropy::from_byte_array(field) } else {
+        AssetId::generate_asset_entropy(OutPoint { txid: Txid::from_byte_array([i as u8 + 1; 32]), vout: i as u32 }, ContractHash::from_byte_array(field))
+    };
+    let amount_confidential = x.amount.is_some() && x.amount_vbf.is_some();
+    (AssetId::from_entropy(entropy), AssetId::reissuance_token_from_entropy(entropy, amount_confidential))
+}
+/// the token id with the OTHER confidentiality flag (what a verifier deriving the flag from the wrong field would compute)
+pub fn own_token_other_flag(i: usize, x: &IssSpec) -> AssetId {
+    let mut y = x.clone();
+    if y.amount.is_none() { y.amount = Some(1); }
+    y.amount_vbf = if x.amount.is_some() && x.amount_vbf.is_some() { None } else { Some(ValueBlindingFactor::zero()) };
+    own_issuance_ids(i, &y).1
+}
+fn iss_value(id: AssetId, v: Option<u64>, vbf: Option<ValueBlindingFactor>) -> Value {
+    match (v, vbf) {
+        (None, _) => Value::Null,
+        (Some(v), None) => Value::Explicit(v),
+        (Some(v), Some(b)) => Value::new_confidential(secp(), v, elements::secp256k1_zkp::Generator::new_unblinded(secp(), id.into_tag()), b),
+    }
+}
 #[derive(Clone, Debug)]
 pub struct InSpec { pub ea: bool, pub ev: bool, pub sec: TxOutSecrets, pub iss: Option<IssSpec> }
 #[derive(Clone, Debug, PartialEq)]
@@ -39,8 +68,8 @@ pub fn txin_for(i: usize, iss: &Option<IssSpec>) -> TxIn {
         Some(s) => AssetIssuance {
             asset_blinding_nonce: if s.reissue { Tweak::from_inner([0x11; 32]).unwrap() } else { ZERO_TWEAK },
             asset_entropy: [0x20 + i as u8; 32],
-            amount: s.amount.map(Value::Explicit).unwrap_or(Value::Null),
-            inflation_keys: s.keys.map(Value::Explicit).unwrap_or(Value::Null),
+            amount: iss_value(own_issuance_ids(i, s).0, s.amount, s.amount_vbf),
+            inflation_keys: iss_value(own_issuance_ids(i, s).1, s.keys, s.keys_vbf),
         },
     };
     TxIn {
@@ -70,10 +99,10 @@ pub fn build(spec: &TxSpec) -> (Transaction, Vec<TxOut>, Vec<TxOutSecrets>) {
         let txin = txin_for(i, &s.iss);
         spent.push(spent_txout(s));
         secrets.push(s.sec);
-        if txin.has_issuance() {
-            let (asset_id, token_id) = txin.issuance_ids();
-            if let Value::Explicit(v) = txin.asset_issuance.amount { secrets.push(TxOutSecrets::new(asset_id, AssetBlindingFactor::zero(), v, ValueBlindingFactor::zero())); }
-            if let Value::Explicit(v) = txin.asset_issuance.inflation_keys { secrets.push(TxOutSecrets::new(token_id, AssetBlindingFactor::zero(), v, ValueBlindingFactor::zero())); }
+        if let Some(x) = &s.iss {
+            let (asset_id, token_id) = own_issuance_ids(i, x);
+            if let Some(v) = x.amount { secrets.push(TxOutSecrets::new(asset_id, AssetBlindingFactor::zero(), v, x.amount_vbf.unwrap_or_else(ValueBlindingFactor::zero))); }
+            if let Some(v) = x.keys { secrets.push(TxOutSecrets::new(token_id, AssetBlindingFactor::zero(), v, x.keys_vbf.unwrap_or_else(ValueBlindingFactor::zero))); }
         }
         input.push(txin);
     }
@@ -86,9 +115,9 @@ pub fn fmt_in(i: usize, s: &InSpec) -> String {
     let iss = match &s.iss {
         None => "-".to_string(),
         Some(x) => {
-            let (a, t) = txin_for(i, &s.iss).issuance_ids();
-            let amt = |v: &Option<u64>| v.map(|v| v.to_string()).unwrap_or_else(|| "n".into());
-            format!("{},{},{},{},{}", amt(&x.amount), amt(&x.keys), tag_hex(&a), tag_hex(&t), if x.reissue { "r" } else { "i" })
+            let (a, t) = own_issuance_ids(i, x);
+            let amt = |v: &Option<u64>, b: &Option<ValueBlindingFactor>| match (v, b) { (None, _) => "n".to_string(), (Some(v), None) => v.to_string(), (Some(v), Some(b)) => format!("c{}.{}", v, vbf_hex(b)) };
+            format!("{},{},{},{},{}", amt(&x.amount, &x.amount_vbf), amt(&x.keys, &x.keys_vbf), tag_hex(&a), tag_hex(&t), if x.reissue { "r" } else { "i" })
         }
     };
     format!("{}{}:{}:{}:{}:{}:{}", s.ea as u8, s.ev as u8, tag_hex(&s.sec.asset), abf_hex(&s.sec.asset_bf), s.sec.value, vbf_hex(&s.sec.value_bf), iss)
@@ -112,8 +141,12 @@ fn parse_in(s: &str) -> Option<InSpec> {
     let iss = if p[5] == "-" { None } else {
         let q: Vec<&str> = p[5].split(',').collect();
         if q.len() != 5 { return None; }
-        let amt = |x: &str| -> Option<Option<u64>> { if x == "n" { Some(None) } else { x.parse().ok().map(Some) } };
-        Some(IssSpec { amount: amt(q[0])?, keys: amt(q[1])?, reissue: q[4] == "r" })
+        let amt = |x: &str| -> Option<(Option<u64>, Option<ValueBlindingFactor>)> {
+            if x == "n" { Some((None, None)) }
+            else if let Some(r) = x.strip_prefix('c') { let (v, b) = r.split_once('.')?; Some((Some(v.parse().ok()?), Some(ValueBlindingFactor::from_slice(&unhex(b)?).ok()?))) }
+            else { Some((Some(x.parse().ok()?), None)) } };
+        let ((amount, amount_vbf), (keys, keys_vbf)) = (amt(q[0])?, amt(q[1])?);
+        Some(IssSpec { amount, keys, reissue: q[4] == "r", amount_vbf, keys_vbf })
     };
     Some(InSpec { ea: &p[0][0..1] == "1", ev: &p[0][1..2] == "1",
         sec: TxOutSecrets::new(asset_from_hex(p[1])?, AssetBlindingFactor::from_slice(&unhex(p[2])?).ok()?, p[3].parse().ok()?, ValueBlindingFactor::from_slice(&unhex(p[4])?).ok()?),
@@ -223,7 +256,7 @@ pub fn c04_hypotheses(spec: &TxSpec) -> bool {
         if s.sec.value == 0 { return false; }
         *bal.entry(s.sec.asset).or_default() += s.sec.value as i128;
         if let Some(x) = &s.iss {
-            let (a, t) = txin_for(i, &s.iss).issuance_ids();
+            let (a, t) = own_issuance_ids(i, x);
             if x.amount == Some(0) || x.keys == Some(0) { return false; }
             if let Some(v) = x.amount { *bal.entry(a).or_default() += v as i128; }
             if let Some(v) = x.keys { *bal.entry(t).or_default() += v as i128; }
@@ -382,11 +415,22 @@ pub fn gen_balanced(rng: &mut ChaCha20Rng, sh: &Shape, tags: &mut Vec<String>) -
             let amount = if rng.gen_range(0..6) == 0 { None } else { Some(ramount(rng)) };
             let keys = if reissue { if amount.is_none() || rng.gen_range(0..4) == 0 { Some(rng.gen_range(1..10)) } else { None } }
                        else if amount.is_none() || rng.gen_bool(0.6) { Some(rng.gen_range(1..10)) } else { None };
+            // sh.iss == 4: the full lattice {null, explicit, confidential}^2 minus (null, null) for (amount, inflation keys), new issuance and reissuance
+            let (amount, keys, reissue, amount_vbf, keys_vbf) = if sh.iss == 4 {
+                // c = 3*a + k, a,k in {0 null,1 explicit,2 confidential}; cycled so that all eight combinations occur in every run
+                static NEXT: std::sync::atomic::AtomicUsize = std::sync::atomic::AtomicUsize::new(0);
+                let c = 1 + (NEXT.fetch_add(1, std::sync::atomic::Ordering::Relaxed) * 3 + rng.gen_range(0..1usize)) % 8;
+                let (ka, kk) = (c / 3, c % 3);
+                (if ka == 0 { None } else { Some(ramount(rng)) }, if kk == 0 { None } else { Some(rng.gen_range(1..10)) }, rng.gen_bool(0.4),
+                 if ka == 2 { Some(rvbf(rng)) } else { None }, if kk == 2 { Some(rvbf(rng)) } else { None })
+            } else { (amount, keys, reissue, None, None) };
+            let form = |v: &Option<u64>, b: &Option<ValueBlindingFactor>| match (v, b) { (None, _) => "null", (_, None) => "explicit", _ => "conf" };
             tags.push(format!("iss-{}{}{}", if reissue { "re" } else { "new" }, if amount.is_some() { "-amt" } else { "" }, if keys.is_some() { "-keys" } else { "" }));
-            Some(IssSpec { amount, keys, reissue })
+            if sh.iss == 4 { tags.push(format!("issform-amount-{}-keys-{}", form(&amount, &amount_vbf), form(&keys, &keys_vbf))); }
+            Some(IssSpec { amount, keys, reissue, amount_vbf, keys_vbf })
         } else { None };
         if iss.is_some() {
-            let (a, t) = txin_for(i, &iss).issuance_ids();
+            let (a, t) = own_issuance_ids(i, iss.as_ref().unwrap());
             if let Some(v) = iss.as_ref().unwrap().amount { add(&mut totals, a, v); }
             if let Some(v) = iss.as_ref().unwrap().keys { add(&mut totals, t, v); }
         }
@@ -460,7 +504,7 @@ pub fn gen(rng: &mut ChaCha20Rng, n: usize, thorough: bool) -> Vec<Case> {
     let mut k = 0;
     while out.len() < n {
         let nin = 1 + k % 4;
-        let sh = Shape { nin, nassets: 1 + (k / 4) % 3, extra_outs: (k / 2) % 4, iss: [0, 0, 1, 2, 3, 0][k % 6], fee: k % 5 != 4 };
+        let sh = Shape { nin, nassets: 1 + (k / 4) % 3, extra_outs: (k / 2) % 4, iss: [0, 4, 1, 2, 3, 4][k % 6], fee: k % 5 != 4 };
         let mut tags = vec!["valid".to_string()];
         let base = gen_balanced(rng, &sh, &mut tags);
         let nm = base.outs.iter().filter(|o| !o.script.is_empty()).count() as u32;
@@ -524,7 +568,7 @@ pub fn gen(rng: &mut ChaCha20Rng, n: usize, thorough: bool) -> Vec<Case> {
         let b2 = gen_balanced(rng, &Shape { nin: 1, nassets: 1, extra_outs: 1, iss: 1, fee: true }, &mut t2);
         let mut s = mark(rng, &b2, 1);
         if let Some(x) = s.ins[0].iss.as_mut() {
-            let (a, _) = txin_for(0, &Some(x.clone())).issuance_ids();
+            let (a, _) = own_issuance_ids(0, x);
             if x.amount.is_some() { x.amount = Some(0); s.outs.retain(|o| o.asset != a); }
         }
         if s.outs.iter().any(is_marked) { push(&mut out, &s, r32(rng), vec!["edge-issuance-zero".into()]); }
